@@ -496,3 +496,53 @@ _run_n = run
 def run(ctx, rep):
     _run_n(ctx, rep)
     length_units(ctx, rep)
+
+
+# ---------------------------------------------------------------------------------------------
+# N5c  the case fold of a character is used in full (an upper-case expansion can be several characters)
+
+def fold_not_truncated(ctx, rep):
+    """`char_to_uppercase` returns an iterator (`ß` folds to `SS`). Taking only its first item (`.next()` outside a loop
+    over it, `.nth(0)`, `.last()`) compares a prefix of the expansion: names that differ are matched and equal names are
+    not. Not decided: whether the expansions are compared as one stream or per character (a value property)."""
+    facts = ctx.facts
+    n = 0
+    for fn in facts.fns.values():
+        if fn.crate != 'fatfs':
+            continue
+        folds = [(b, t) for b, t in fn.calls() if (t.get('callee') or '').endswith('dir_entry::char_to_uppercase')]
+        if not folds:
+            continue
+        d = Deps(fn)
+        loops = fn.loops()
+        in_loop = set()
+        for body in loops.values():
+            in_loop |= set(body)
+        for fb, ft in folds:
+            n += 1
+            bad = None
+            for b, t in fn.calls():
+                callee = t.get('callee') or ''
+                short = callee.rsplit('::', 1)[-1]
+                if not callee.startswith('core::iter::') or short not in ('next', 'nth', 'last', 'next_back', 'nth_back'):
+                    continue
+                if not t['args'] or ('callsite', fb) not in d.of_operand(t['args'][0]):
+                    continue
+                if short == 'next' and b in in_loop:
+                    continue
+                bad = (b, t)
+            rep.oblige('N5c', '%s|bb%d' % (fn.name, fb), ok=bad is None, nontrivial=True,
+                       sample={'fn': fn.name, 'at': fn.loc(ft['span']), 'rule': 'the fold iterator is not cut to one item'})
+            if bad:
+                rep.violation('N5c', vkey('N5c', fn.name, 'truncated-fold', ''), fn.loc(bad[1]['span']),
+                              '%s takes only one item of the case-folded expansion of a character (`%s`): characters whose '
+                              'upper-case form is several characters are compared by a prefix of it' % (fn.name, bad[1]['span']['snip'][:60]))
+    rep.counts['N5c.sites'] = n
+
+
+_run_n8 = run
+
+
+def run(ctx, rep):
+    _run_n8(ctx, rep)
+    fold_not_truncated(ctx, rep)
